@@ -140,9 +140,15 @@ impl Builtins {
                                 pos.clone(),
                             )
                         })?;
+                        // The file is on the import chain while it is being
+                        // evaluated, so that an import leading back to it (from
+                        // any position, not only a let binding) is reported as a
+                        // cycle instead of recursing.
+                        let mut child_stack = import_stack.clone();
+                        child_stack.push(path.clone());
                         let mut vm =
                             VM::with_pointer(self.strict, op_pointer, base_path)
-                                .with_import_stack(import_stack.clone());
+                                .with_import_stack(child_stack);
                         // See FileBuilder::build: the output lock is per evaluation.
                         env.borrow_mut().reset_out_lock_for_path(path.as_ref());
                         vm.run(env)?;
